@@ -12,7 +12,7 @@
    tokens of the listed validators. *)
 From stdpp Require Import gmap numbers list.
 From Coq Require Import ZArith.
-Require Import Model.Oracle Proofs.OracleLemmas Proofs.C15Proofs.
+Require Import Model.Oracle Proofs.OracleLemmas Proofs.C15Proofs Proofs.C15Median.
 Local Open Scope Z_scope.
 
 (* If an update is accepted and the stored quote of pair cp changes, then the sender is a
@@ -103,6 +103,35 @@ Theorem C15_written_quote : ∀ s blk sender height commit s' cp,
                  quotes s' !! cp = Some (Some (MkQuote p (wrap64 tsp) blk)).
 Proof. exact c15_written_quote. Qed.
 
+(* The exact value: when the recorded powers are non-negative (they come from an L1 light
+   client), a changed quote carries the stake-weighted median of the contributors - the
+   recorded validators whose latest non-empty vote carries a price for cp ([contributors],
+   characterised by C15_contributors): a submitted price p such that the weight of all prices
+   <= p reaches half (rounded down) of the contributing weight, while for every smaller
+   submitted price it does not. *)
+Theorem C15_median : ∀ s blk sender height commit s' cp,
+  (∀ a pk w, hset s !! a = Some (pk, w) → 0 <= w) →
+  update_oracle s blk sender height commit = Some s' → quotes s' !! cp ≠ quotes s !! cp →
+  ∃ votes q, commit = Some votes ∧ quotes s' !! cp = Some (Some q) ∧
+    let cs := contributors (hset s) (providers votes) cp in
+    (∃ c, c ∈ cs ∧ c.2 = q_price q) ∧
+    Z.quot (weight_total cs) 2 <= weight_upto cs (q_price q) ∧
+    (∀ c, c ∈ cs → c.2 < q_price q → weight_upto cs c.2 < Z.quot (weight_total cs) 2).
+Proof. exact c15_median. Qed.
+
+Theorem C15_contributors : ∀ s votes cp c,
+  c ∈ contributors (hset s) (providers votes) cp ↔
+  ∃ pk ps, hset s !! c.1.1 = Some (pk, c.1.2) ∧ providers votes !! c.1.1 = Some ps ∧ price_of ps cp = Some c.2.
+Proof. exact c15_contributors. Qed.
+
+(* ... where the provider entry of a validator is the decoded price map of its LAST vote with a
+   non-empty extension. *)
+Theorem C15_latest_vote_wins : ∀ l1 v l2 ps,
+  eff_dec v = Some (true, ps) →
+  (∀ v', v' ∈ l2 → v_addr v' = v_addr v → ∀ ps', eff_dec v' ≠ Some (true, ps')) →
+  providers (l1 ++ v :: l2) !! v_addr v = Some ps.
+Proof. exact c15_latest_vote_wins. Qed.
+
 (* The update height (as the int64 the handler compares) is never older than the recorded set. *)
 Theorem C15_height : ∀ s blk sender height commit s',
   update_oracle s blk sender height commit = Some s' →
@@ -144,6 +173,9 @@ Print Assumptions C15_noncommit_payload_rejects.
 Print Assumptions C15_timestamp_monotone.
 Print Assumptions C15_replay_rejected.
 Print Assumptions C15_written_quote.
+Print Assumptions C15_median.
+Print Assumptions C15_contributors.
+Print Assumptions C15_latest_vote_wins.
 Print Assumptions C15_height.
 Print Assumptions C15_height_reachable.
 Print Assumptions C15_set_replacement.
